@@ -41,6 +41,10 @@ type Entry[K comparable, V any] struct {
 	policyWeight int64          // Protected by the policy mutex.
 	expire       atomic.Int64   // Protected by the shard mutex.
 	flag         Flag           // Protected by the policy mutex.
+	// dirty is set, under the shard mutex, when a value promoted from the secondary
+	// cache is overwritten in place: the secondary copy no longer matches, so the
+	// entry must be written back on eviction even before the policy sees the update.
+	dirty atomic.Bool
 }
 
 // used in test only
